@@ -428,11 +428,6 @@ Theorem C09_magnitude_hN : forall (I : Type) (O : ops I) (S VA V1 VG VB : string
   magnitude_first_order S VB.
 Proof. intros I O S VA V1 VG VB Hadm HA _ _ HB. exact (C09_magnitude I O S VA VB Hadm HA HB). Qed.
 
-Check C09_cartesian_rotated.
-Check C09_frobenius_cartesian.
-Check C09_frobenius_frenet.
-Check C09_scale_length.
-
 Print Assumptions C09_trace_free_h0.
 Print Assumptions C09_trace_free_hN.
 Print Assumptions C09_curl_h0.
